@@ -242,7 +242,12 @@ def run_case(ctx, case):
       labels[11] = "flagged_missing_one_column"
   x = x.astype(np.float32)
   inp = tf.constant(x) if imp not in ("tensor", "both") else [tf.constant(x), tf.constant(miss)]
+  if imp == "value" and rng.rand() < .3:
+    inp = [tf.constant(x)]            # the one-element list form the layer unpacks itself
+    ctx.cls("input-form:one-element-list")
   layer(inp)
+  # queried before the weights change as well as after: the accessors must describe the *current* weights
+  layer.keypoints_outputs(); layer.keypoints_inputs()
   rows = nk - (1 if cyc else 0)
   kc = case["kernel_class"]
   k = rng.normal(size=(rows, units))
